@@ -17,7 +17,7 @@ from ..streams import EventLog, SimInputStream, SimOutputStream
 
 PROP = "C17"
 LEVEL = "exploration"
-RUNS = {"quick": 3000, "thorough": 150000}
+RUNS = {"quick": 3000, "thorough": 80000}
 OPS_KEYS = ("lines", "ops", "renders")
 INFO = {
     "rule": "class app: one application object (commands with lenient parsing enabled, default/anonymous "
